@@ -1,6 +1,82 @@
 import WhVerif.Util.Proto
+import WhVerif.Model.C05
 namespace WhVerif.Driver.C05
-open Lean WhVerif.Proto
-/-- ops of property C05 are named `c05.<name>`; return `none` for ops that are not ours -/
-def handle (_op : String) (_j : Json) : Option Json := none
+open Lean WhVerif.Proto WhVerif.C05
+
+def parseTriples (j : Json) (k : String) : Option (List (Nat × Nat × Nat)) := do
+  (← getList? j k).mapM (fun e => do
+    match ← natList? e with
+    | [f, m, c] => some (f, m, c)
+    | _ => none)
+
+def parsePed (j : Json) : Option Ped := do
+  some ⟨← getNat? j "size", ← parseTriples j "triples"⟩
+
+def parseCosts (j : Json) : Option PartCosts := do
+  (← asArr? j).mapM (fun e => do
+    match ← natList? e with
+    | [a, b] => some (a, b)
+    | _ => none)
+
+def pairJson (p : Nat × Nat) : Json := Json.arr #[ofNat p.1, ofNat p.2]
+
+/-- one column: `{t, gts, cp}` -> per individual `[a0, a1]`, or the string "MendelianConflict" -/
+def parseEntries (j : Json) : Option (List (Nat × Nat × Nat × Nat)) := do
+  (← asArr? j).mapM (fun e => do
+    match ← natList? e with
+    | [i, h, a, q] => some (i, h, a, q)
+    | _ => none)
+
+def columnJson (ped : Ped) (c : Json) : Json :=
+  let cp? : Option PartCosts :=
+    match (getObj? c "cp").bind parseCosts with
+    | some cp => some cp
+    | none => match getNat? c "t", (getObj? c "entries").bind parseEntries with
+      | some t, some es => some (costsFromEntries ped t es)
+      | _, _ => none
+  match getNat? c "t", (getObj? c "gts").bind natListList?, cp? with
+  | some t, some gts, some cp =>
+    match getAlleles ped t gts cp with
+    | none => Json.str "MendelianConflict"
+    | some res => ofList pairJson res
+  | _, _, _ => badInput
+
+def handle (op : String) (j : Json) : Option Json :=
+  if op == "c05.partitions" then
+    match parsePed j, getNat? j "t" with
+    | some ped, some t =>
+      some (ofList (fun i => match hapToPartition ped t i with | some p => pairJson p | none => Json.null) (List.range ped.size))
+    | _, _ => some badInput
+  else if op == "c05.columns" then
+    match parsePed j, getList? j "cols" with
+    | some ped, some cols => some (Json.arr (cols.map (columnJson ped)).toArray)
+    | _, _ => some badInput
+  else if op == "c05.admissible" then
+    match parsePed j, getNat? j "t", (getObj? j "gts").bind natListList? with
+    | some ped, some t, some gts => some (ofNatList (admissible ped t gts))
+    | _, _, _ => some badInput
+  else if op == "c05.conflict" then
+    -- list of [gm, gf, gc] triples -> list of true/false/null(IndexError)
+    match getList? j "triples" with
+    | some l => some (Json.arr (l.map (fun e =>
+        match natListList? e with
+        | some [gm, gf, gc] => (match mendelianConflict gm gf gc with | some b => Json.bool b | none => Json.null)
+        | _ => badInput)).toArray)
+    | none => some badInput
+  else if op == "c05.phaseable" then
+    match (getList? j "tab").bind (·.mapM natListList?), parseTriples j "trios", getBool? j "include_hom" with
+    | some tab, some trios, some incl =>
+      let r := findPhaseableVariants tab trios incl
+      some (Json.mkObj [("hom", ofNatList r.1), ("keep", ofNatList r.2),
+        ("conflicts", ofNatList ((List.range (nVariants tab)).filter (conflictAt tab trios))),
+        ("missing", ofNatList ((List.range (nVariants tab)).filter (missingAt tab)))])
+    | _, _, _ => some badInput
+  else if op == "c05.accessible" then
+    match getNatList? j "retained", getNatList? j "read_pos", getNatList? j "hom_pos", getNat? j "fam_size", getBool? j "genetic" with
+    | some r, some rp, some hp, some fam, some g =>
+      some (match accessiblePositions r rp hp fam g with
+        | some acc => ofNatList acc
+        | none => Json.str "AssertionError")
+    | _, _, _, _, _ => some badInput
+  else none
 end WhVerif.Driver.C05
